@@ -357,7 +357,7 @@ pub fn explore<C, S>(
                             if let Some(id) = &v.excluded {
                                 *st.excluded.entry(id.clone()).or_default() += 1;
                             } else {
-                                st.evaluations += 1;
+                                st.evaluations += if v.sub_evals > 0 { v.sub_evals } else { 1 };
                                 for c in &v.classes {
                                     *st.classes.entry((*c).to_string()).or_default() += 1;
                                 }
